@@ -435,6 +435,7 @@ class RetryExecutor(CanCustomizeBind, Executor):
         if delegate_future.cancelled():
             # nothing to do, retrying on cancel is not allowed
             self._log.debug("Delegate was cancelled: %s", delegate_future)
+            found_job.future._me_delegate_cancelled()
             return
 
         (should_retry, sleep_time) = eval_policy(found_job, self._log)
